@@ -358,6 +358,28 @@ theorem office001_bound_attained :
     norm_num
     nlinarith [h3]
 
+set_option maxHeartbeats 8000000 in
+set_option maxRecDepth 100000 in
+/-- DESIGN §8's example as a theorem: Caltech as generated, 150 kW, default tolerances — a balanced
+    schedule (AB on the ten non-pod EVSEs) that the whole network accepts (pods, primary rows included)
+    and that draws exactly `150·1000 + 360·max(1e-5, 1e-7·150000/360)` W at 120√3 V (150.11 kW at 208 V). -/
+theorem caltech_bound_attained :
+    ∃ (r : ℝ) (S : List (List ℝ)), r * r = 3 ∧ S.length = nStations topo0 ∧
+      feasible topo0 r (1 / 100000) (1 / 10000000) [150] S = true ∧ 0 < periods S ∧
+      (topo0.xfmrs.map fun x => 120 * r * groupSum x.sec.evses (period S 0))
+        = [150 * 1000 + 360 * tolOf (1 / 100000) (1 / 10000000) ((150 : ℝ) * 1000 / 360)] := by
+  have h3 : Real.sqrt 3 * Real.sqrt 3 = 3 := Real.mul_self_sqrt (by norm_num)
+  have h0 : 0 ≤ Real.sqrt 3 := Real.sqrt_nonneg 3
+  refine ⟨Real.sqrt 3, [[10000001 / 720000 * Real.sqrt 3], [10000001 / 720000 * Real.sqrt 3], [10000001 / 720000 * Real.sqrt 3], [10000001 / 720000 * Real.sqrt 3], [10000001 / 720000 * Real.sqrt 3], [10000001 / 720000 * Real.sqrt 3], [10000001 / 720000 * Real.sqrt 3], [10000001 / 720000 * Real.sqrt 3], [10000001 / 720000 * Real.sqrt 3], [10000001 / 720000 * Real.sqrt 3], [0], [0], [0], [0], [0], [0], [0], [0], [0], [0], [0], [0], [0], [0], [0], [0], [10000001 / 1008000 * Real.sqrt 3], [10000001 / 1008000 * Real.sqrt 3], [10000001 / 1008000 * Real.sqrt 3], [10000001 / 1008000 * Real.sqrt 3], [10000001 / 1008000 * Real.sqrt 3], [10000001 / 1008000 * Real.sqrt 3], [10000001 / 1008000 * Real.sqrt 3], [10000001 / 1008000 * Real.sqrt 3], [10000001 / 1008000 * Real.sqrt 3], [10000001 / 1008000 * Real.sqrt 3], [10000001 / 1008000 * Real.sqrt 3], [10000001 / 1008000 * Real.sqrt 3], [10000001 / 1008000 * Real.sqrt 3], [10000001 / 1008000 * Real.sqrt 3], [10000001 / 1008000 * Real.sqrt 3], [10000001 / 1008000 * Real.sqrt 3], [10000001 / 1008000 * Real.sqrt 3], [10000001 / 1008000 * Real.sqrt 3], [10000001 / 1008000 * Real.sqrt 3], [10000001 / 1008000 * Real.sqrt 3], [10000001 / 1008000 * Real.sqrt 3], [10000001 / 1008000 * Real.sqrt 3], [10000001 / 1008000 * Real.sqrt 3], [10000001 / 1008000 * Real.sqrt 3], [10000001 / 1008000 * Real.sqrt 3], [10000001 / 1008000 * Real.sqrt 3], [10000001 / 1008000 * Real.sqrt 3], [10000001 / 1008000 * Real.sqrt 3]], h3, by decide, ?_, by decide, ?_⟩
+  · simp [feasible, netOf, netFeasible, periods, col, rowOk, magLe, aggRe, aggIm, dotK, sumK, tolOf, pyMax,
+      denseRow, coeff, topo0, limK, evalOps, evalOp, ratK, ofIntK, cosK, sinK, nStations, List.range_succ,
+      List.lookup, angAB, angBC, angCA, List.range_zero]
+    norm_num
+    constructorm* _ ∧ _ <;> nlinarith [h3, h0]
+  · simp [topo0, groupSum, sumK, period, col, tolOf, pyMax]
+    norm_num
+    nlinarith [h3]
+
 /-! ## primary side -/
 
 /-- **Primary rows are implied bounds.**  Each primary row is ¼ of the difference of two secondary rows
